@@ -186,6 +186,62 @@ def graph_task(args):
         s.cleanup()
 
 
+def cyc_ckpt_task(args):
+    """C09 with a repository history: the cyclic configuration (plus one unrelated target `x`) lives in a
+    git repository; states = no checkpoint / checkpoint and nothing changed / a change only outside
+    the cycle (committed, or untracked) / a change inside it. In every state the three grouping APIs
+    reject with a graph error and `run` starts nothing."""
+    n, edges = args
+    ts = flat_targets(n, edges, False) + [{"path": "x"}]
+    tm = {t["path"]: t for t in ts}
+    s = sc.Scratch("gck")
+    try:
+        r = sc.Repo(s, "r", ts, commands={t["path"]: {"build": "x"} for t in ts})
+        v = []
+        judged = 0
+        member = ts[0]["path"]
+
+        def probe(state):
+            nonlocal judged
+            for name, argv in (("run -c build", ["run", "-c", "build"]), ("analyze --target-groups", ["analyze", "--target-groups"]),
+                               ("target show -g", ["target", "show", "-g"])):
+                r.clear_traces()
+                res = r.mr(*argv, env=r.trace_env())
+                judged += 1
+                e = res.err_json() or {}
+                if res.code == 0 or e.get("type") != "graph":
+                    v.append(("cycle-accepted-with-history", "[%s] %s: exit %s, stdout %s, stderr %s" % (state, name, res.code, res.out[-150:], res.err[:150])))
+                started = r.traces()
+                if started:
+                    v.append(("executed-despite-cycle", "[%s] %s started %d executables" % (state, name, len(started))))
+        probe("no checkpoint")
+        up = r.mr("checkpoint", "update")
+        if up.code != 0:
+            return {"judged": judged, "v": [(sig, d, {"cli_cyc_ckpt": [n, edges]}) for sig, d in v]}  # checkpointing a cyclic config is not C09's subject
+        probe("checkpoint, nothing changed")
+        r.write("x/new.txt", "untracked\n")
+        probe("checkpoint, untracked change outside the cycle")
+        r.commit("x")
+        probe("checkpoint, committed change outside the cycle")
+        r.mr("checkpoint", "update")
+        r.write(member + "/edit.txt", "edit\n")
+        r.commit("m")
+        probe("checkpoint, committed change inside the cycle")
+        return {"judged": judged, "v": [(sig, d, {"cli_cyc_ckpt": [n, edges]}) for sig, d in v]}
+    finally:
+        s.cleanup()
+
+
+def cyc_ckpt_cases(tier):
+    out = []
+    for n in (2, 3):
+        for edges in digraphs(n):
+            ts = flat_targets(n, edges, False)
+            if has_cycle({t["path"]: t for t in ts}):
+                out.append((n, edges))
+    return out if tier != "quick" else out[::3]
+
+
 def graph_cases(prop, tier):
     out = []
     for n in (1, 2, 3):
@@ -292,6 +348,8 @@ def _wrap(fn_name, arg):
             return {"judged": 1, "v": [(sig, d, {"cli_config": {"targets": arg}}) for sig, d in v]}
         if fn_name == "graph":
             return graph_task(arg)
+        if fn_name == "cyc":
+            return cyc_ckpt_task(arg)
         if fn_name == "c01":
             return c01_task(arg)
     except common.EngineError as e:
@@ -308,6 +366,10 @@ def _wg(a):
     return _wrap("graph", a)
 
 
+def _wcy(a):
+    return _wrap("cyc", a)
+
+
 def _w01(a):
     return _wrap("c01", a)
 
@@ -318,6 +380,8 @@ def run_slice(prop, tier):
         res = common.pmap(_w10, c10_cases(tier), chunksize=4)
     elif prop in ("C03", "C09"):
         res = common.pmap(_wg, graph_cases(prop, tier), chunksize=2)
+        if prop == "C09":
+            res += common.pmap(_wcy, cyc_ckpt_cases(tier), chunksize=1)
     elif prop == "C01":
         res = common.pmap(_w01, c01_cases(tier), chunksize=2)
     else:
